@@ -165,9 +165,16 @@ def r2_store_payload(ctx):
 
 
 def _loop_env(**over):
+    from ..repo import get_repo
+    from .common import model_coll, model_elem
+    repo = get_repo()
     env = {"self.terminating": False, "self.futs_in_progress": {}, "self.awaiting_confirmation": {}, "self.invalid": set(), "self.acks": set(),
            "self.cap": 2}
     env.update(over)
+    for f in ("invalid", "acks"):
+        env[f"self.{f}"] = model_coll(repo, DSV, f, env[f"self.{f}"])
+    env["self.awaiting_confirmation"] = {k: (model_elem(repo, DSV, "awaiting_confirmation", tuple(v)) if isinstance(v, tuple) else v)
+                                          for k, v in env["self.awaiting_confirmation"].items()}
     return env
 
 
